@@ -961,6 +961,10 @@ int main(int argc, char **argv)
               if (!thorough && (b > 12.5 || (rf == 3 && pat != 0))) continue;
               offc.push_back({a, b, bd != 0, upd, rf, thorough ? 7 : 5, 6, pat});
             }
+  // both walkers far outside the grid (12.5 bins; hills are kept for analytic use up to 10 bins INSIDE the boundary and at any distance outside)
+  for (int bd = 0; bd <= 1; bd++)
+    for (int upd = 1; upd <= 2; upd++)
+      for (int pat = 0; pat < (thorough ? 3 : 1); pat++) offc.push_back({18.25, 18.6, bd != 0, upd, 2, thorough ? 7 : 5, 6, pat});
   if (getenv("C14_DEBUG")) {
     for (auto &c : abf) if (c.czar && c.n == 3 && !c.rendezvous) { std::vector<int> none; AbfOutcome o = abf_execute(c, none); fprintf(stderr, "problem: %s\n", o.problem.c_str()); }
     return 0;
